@@ -190,7 +190,8 @@ def gen_cmd(pkg, t, log):
             # fault injection from inside the action: if the trigger file exists, the command kills plz
             # (its parent) with SIGKILL after having written one output, and stops.
             kill = ' if [ -e "%s" ]; then rm -f "%s"; kill -9 $PPID; exit 1; fi;' % (t["killfile"], t["killfile"])
-        body = 'for o in $OUTS; do { echo "T %s %s ${o##*/}";%s %s; } > "$o";%s done; ' % (lab, t["salt"], envdump, DUMP, kill)
+        # (anon: the output does not mention its own name, so renaming it leaves the bytes as they are)
+        body = 'for o in $OUTS; do { echo "T %s %s %s";%s %s; } > "$o";%s done; ' % (lab, t["salt"], "-" if t.get("anon") else "${o##*/}", envdump, DUMP, kill)
     if t.get("optlog"):
         # an optional output whose NAME depends on the content of the inputs (optional_outs = ["*.optlog"])
         body += 'tag=`{ echo %s; find $SRCS /dev/null -type f 2>/dev/null | LC_ALL=C sort | xargs cat 2>/dev/null; } | cksum | cut -d" " -f1`; echo "optional %s $tag" > %s_$tag.optlog; ' % (t["salt"], lab, t["name"])
